@@ -72,6 +72,8 @@ def probes():
         P.append(("bracket:" + fn, call(fn, "select [a] from t")))
         P.append(("normal:" + fn, call(fn, "select f(null, 1) from t", calls="normal_op")))
         P.append(("reject:" + fn, call(fn, "select a from t where")))
+        # a call inside a window frame offset is simplified DURING matching (windows.py), not after it
+        P.append(("frame-call:" + fn, call(fn, "select sum(x) over (order by d range between date_sub(d, 7) preceding and current row) from t")))
         # the whole operator table (every ordered pair of levels unparenthesised): a parser whose operator order
         # depends on which parsers were built before shows here
         P.append(("operators:" + fn, call(fn, ";\n".join(precprobe.statements()))))
